@@ -43,6 +43,7 @@ def main(tier):
     chk.run("R-ELEMSIZE", V.elemsize, cx.repo, cx.schema, cx.sites, floor=4)
     chk.run("R-NULLORDER", V.nullorder, cx.repo, floor=8)
     chk.run("R-BITSFIELD", V.bitsfield, cx.repo, floor=2)
+    chk.run("R-SUBBYTE", V.subbyte, cx.repo, floor=3)
     chk.run("R-NEGLOC", V.negloc, cx.repo, cx.schema, cx.sites, floor=2)
     chk.run("R-ATTRBACKEND", V.attrbackend, cx.repo, floor=6)
     chk.run("R-BITSFIXED", V.bitsfixed, cx.repo, floor=2)
